@@ -292,9 +292,19 @@ func c31Prepare(p *core.Pkg, rs *core.RefSchema, atoms []*core.Atom, withDocs, o
 // c31Eval judges one (t1, t2-document, option) case. Returns the violated clause or "" and an outcome class.
 // where abstracts the place of the failure to a schema node (part of the signature).
 func c31Eval(p *core.Pkg, s1, s2 *c31State, want *core.Model, wantCanon string, d c31Doc, ignore bool) (clause, where, detail, outcome string) {
+	return c31EvalShare(p, s1, s2, want, wantCanon, d, ignore, false)
+}
+
+// c31EvalShare: with share, equal leaves / leaf-lists of t1 share one variable / one slice (user code
+// that fills several nodes from one template value): a decoder that overwrites the old storage in
+// place, instead of storing a new value, changes nodes the document does not mention.
+func c31EvalShare(p *core.Pkg, s1, s2 *c31State, want *core.Model, wantCanon string, d c31Doc, ignore, share bool) (clause, where, detail, outcome string) {
 	t, err := p.Build(s1.atoms)
 	if err != nil {
 		return "", "", "", "builder-conflict"
+	}
+	if share && core.ShareLeafPointers(t) == 0 {
+		return "", "", "", "shared:nothing-to-share"
 	}
 	err = c31Unmarshal(p, d.json, t.(ygot.GoStruct), ignore)
 	if err != nil && strings.HasPrefix(err.Error(), "PANIC") {
@@ -400,16 +410,27 @@ func c31Pairs(c *core.Ctx, p *core.Pkg, rs *core.RefSchema, left, right [][]*cor
 					}
 					c.R.Add("evaluations", 1)
 					c.R.Add("traces_validated_against_impl", 1)
-					clause, where, detail, outcome := c31Eval(p, s1, s2, want, wantCanon, d, ignore)
+					share := tag == "shared"
+					clause, where, detail, outcome := c31EvalShare(p, s1, s2, want, wantCanon, d, ignore, share)
 					if clause == "" {
+						if share && !strings.HasPrefix(outcome, "shared:") {
+							outcome = "shared:" + outcome
+						}
 						c.R.Outcome(outcome)
 						continue
+					}
+					if share {
+						clause += "(t1-with-shared-leaf-storage)"
 					}
 					c.R.Outcome("violation")
 					// signature: clause and the schema node where the result deviates (not the whole pair and not
 					// the document variant: a general regression would otherwise yield thousands of signatures)
 					sig := clause + ":" + where // the variant is in the replay case and the detail
-					c.R.Violation(sig, detail, pairCase{Pkg: p.Name, A: atomNames(s1.atoms), B: atomNames(s2.atoms), Opt: c31VariantName(d, ignore)})
+					opt := c31VariantName(d, ignore)
+					if share {
+						opt += "+shared"
+					}
+					c.R.Violation(sig, detail, pairCase{Pkg: p.Name, A: atomNames(s1.atoms), B: atomNames(s2.atoms), Opt: opt})
 				}
 			}
 		}
@@ -481,6 +502,33 @@ func runC31(c *core.Ctx) {
 			c.R.Sample(map[string]interface{}{"pkg": p.Name, "t1": atomNames(all[len(all)/2]), "t2": atomNames(all[len(all)/3])})
 		}
 	}
+	// shared storage in t1: every t1 of <= 2 leaf / leaf-list atoms (focused alphabet, plus all leaf-list atoms)
+	// in which equal values share one variable / one slice x every single-atom document over the same atoms
+	shareNames := []string{"vocus", "vtus"}
+	if c.Thorough() {
+		shareNames = names
+	}
+	for _, n := range shareNames {
+		if c.Expired() {
+			break
+		}
+		p := core.PkgByName(n)
+		rs, err := c19Schema(p)
+		if err != nil {
+			c.R.Violation("reference-error:schema", err.Error(), nil)
+			return
+		}
+		var al []*core.Atom
+		for _, a := range p.Atoms() {
+			if (a.Kind == "leaflist" && len(a.Val.Elems()) <= 3) || (a.Kind == "leaf" && a.Focus) {
+				al = append(al, a)
+			}
+		}
+		two := core.Explore(p, al, 2)
+		one := core.Explore(p, al, 1)
+		c.R.Add("states", int64(len(two.States)))
+		c31Pairs(c, p, rs, c31StatesOf(two), c31StatesOf(one), "shared", false, true)
+	}
 }
 
 func replayC31(c *core.Ctx, raw []byte) (bool, string) {
@@ -521,8 +569,8 @@ func replayC31(c *core.Ctx, raw []byte) (bool, string) {
 	for _, d := range s2.docs {
 		for _, ignore := range []bool{false, true} {
 			names = append(names, c31VariantName(d, ignore))
-			if c31VariantName(d, ignore) == pc.Opt {
-				clause, _, detail, _ := c31Eval(p, s1, s2, want, want.Canon(), d, ignore)
+			if vn := c31VariantName(d, ignore); vn == pc.Opt || vn+"+shared" == pc.Opt {
+				clause, _, detail, _ := c31EvalShare(p, s1, s2, want, want.Canon(), d, ignore, strings.HasSuffix(pc.Opt, "+shared"))
 				return clause != "", clause + " " + detail
 			}
 		}
